@@ -189,9 +189,13 @@ func lastSeg(s string) string {
 	return s
 }
 
-func c13Poll(c *Ctx) {
+func c13Poll(c *Ctx) { c13PollAs(c, "C13/R2") }
+
+// c13PollAs: the Poll rules under the given rule id (C13/R2; C08/R5 — a state that is a function of the log needs every
+// log entry applied exactly once, in order, whatever crash point).
+func c13PollAs(c *Ctx, rule string) {
 	r := c.R
-	fn := c.Fn("C13/R2", pkgNode, "BaseNodeService", "Poll")
+	fn := c.Fn(rule, pkgNode, "BaseNodeService", "Poll")
 	if fn == nil {
 		return
 	}
@@ -200,7 +204,7 @@ func c13Poll(c *Ctx) {
 	}
 	saves, procs, loads, gets := byName("SaveOffset"), byName("ProcessMessage"), byName("LoadOffset"), byName("GetMessages")
 	if len(saves) != 1 || len(procs) != 1 || len(loads) != 1 || len(gets) != 1 {
-		r.Unknown("C13/R2", "node.Poll:anchors", "Poll loads the offset, fetches, processes and saves", c.Pos(fn.Pos()), sprintf("SaveOffset=%d ProcessMessage=%d LoadOffset=%d GetMessages=%d", len(saves), len(procs), len(loads), len(gets)))
+		r.Unknown(rule, "node.Poll:anchors", "Poll loads the offset, fetches, processes and saves", c.Pos(fn.Pos()), sprintf("SaveOffset=%d ProcessMessage=%d LoadOffset=%d GetMessages=%d", len(saves), len(procs), len(loads), len(gets)))
 		return
 	}
 	save, proc, ld, get := saves[0], procs[0], loads[0], gets[0]
@@ -225,10 +229,10 @@ func c13Poll(c *Ctx) {
 		}
 	}
 	if iter == nil {
-		r.Unknown("C13/R2", "node.Poll:loop", "Poll iterates over the fetched messages", c.Pos(fn.Pos()), "range over GetMessages result not found")
+		r.Unknown(rule, "node.Poll:loop", "Poll iterates over the fetched messages", c.Pos(fn.Pos()), "range over GetMessages result not found")
 		return
 	}
-	r.Check(!ssax.ReachableFrom(fn, iter, save, skip, []ssa.Instruction{proc}), "C13/R2", "node.Poll:handle<offset", "the offset of a message is saved only after ProcessMessage ran for it (or it was skipped as not addressed to this node)", c.PosOf(save),
+	r.Check(!ssax.ReachableFrom(fn, iter, save, skip, []ssa.Instruction{proc}), rule, "node.Poll:handle<offset", "the offset of a message is saved only after ProcessMessage ran for it (or it was skipped as not addressed to this node)", c.PosOf(save),
 		"SaveOffset is reachable from the start of an iteration without passing ProcessMessage: a crash while handling the message skips it for ever after restart")
 	// value
 	okVal := false
@@ -237,10 +241,10 @@ func c13Poll(c *Ctx) {
 			okVal = true
 		}
 	}
-	r.Check(okVal, "C13/R2", "node.Poll:offset-value", "the saved offset is message.Offset + 1 of the message just handled", c.PosOf(save), "argument is "+ssax.Path(save.Common().Args[0]))
-	r.Check(ssax.ResultOf(get.Common().Args[0], ld, 0), "C13/R2", "node.Poll:resume-from-saved", "messages are fetched from the saved offset", c.PosOf(get), "GetMessages argument is "+ssax.Path(get.Common().Args[0]))
+	r.Check(okVal, rule, "node.Poll:offset-value", "the saved offset is message.Offset + 1 of the message just handled", c.PosOf(save), "argument is "+ssax.Path(save.Common().Args[0]))
+	r.Check(ssax.ResultOf(get.Common().Args[0], ld, 0), rule, "node.Poll:resume-from-saved", "messages are fetched from the saved offset", c.PosOf(get), "GetMessages argument is "+ssax.Path(get.Common().Args[0]))
 	// every message of the batch gets its offset saved: SaveOffset post-dominates the iteration (next iteration start unreachable avoiding save)
-	r.Check(!ssax.ReachableFrom(fn, iter, iter, nil, []ssa.Instruction{save}), "C13/R2", "node.Poll:offset-every-message", "every iteration saves the offset before the next message is taken", c.PosOf(save), "an iteration can continue to the next message without saving the offset")
+	r.Check(!ssax.ReachableFrom(fn, iter, iter, nil, []ssa.Instruction{save}), rule, "node.Poll:offset-every-message", "every iteration saves the offset before the next message is taken", c.PosOf(save), "an iteration can continue to the next message without saving the offset")
 }
 
 func c13Order(c *Ctx) {
